@@ -466,6 +466,9 @@ func TestProp(t *testing.T) {
 				if !sw.Mine(item) {
 					continue
 				}
+				if sw.Stop() {
+					continue // enough failures recorded: every further hang costs its full watchdog time
+				}
 				if methods[i].name == "SuspendResume" && methods[j].name == "SuspendResume" {
 					continue // lifecycle calls have one owner; two goroutines suspending and resuming each other is not a use the statement describes
 				}
